@@ -10,7 +10,7 @@ PROPERTY = 'C12'
 LEAN_PROPS = 'PlumpyModel.Props.C12'
 ASSUMPTIONS = [
     'validators are pure oracles (the harness uses "reject every value mentioning atom n")',
-    'value domain: int (including the falsy 0) and float atoms, plain nested dicts; emitted values are not mutated by user code afterwards',
+    'value domain: int (including the falsy 0) and float atoms, plain nested dicts and immutable mappings (AttributesFrozendict); emitted values are not mutated by user code afterwards',
     'out() is called from the step function of a process run with execute() on a stock asyncio loop, exceptions of out() are caught by '
     'the step; no control requests (those are C01-C06)',
     'one process per class: the output spec is class-level state that out() extends by dynamic creation; the harness builds a fresh '
@@ -226,7 +226,7 @@ def out_trees(n):
 
 
 SMALL_PATHS = ['a', 'b', 'a.a', 'a.b', 'z', 'z.y', 'a.z.y']
-SMALL_VALUES = [('A', 0, 1), ('A', 1, 2), ('A', 0, 0), ('D', []), ('D', [('a', ('A', 0, 2))])]
+SMALL_VALUES = [('A', 0, 1), ('A', 1, 2), ('A', 0, 0), ('D', []), ('D', [('a', ('A', 0, 2))]), ('F', [('a', ('A', 0, 2))]), ('F', [])]
 SMALL_OPS = [(p, v) for p in SMALL_PATHS for v in SMALL_VALUES]
 SMALL_TOPS = [(True, False, None, None), (True, True, None, None), (True, True, 0, None), (True, False, None, 1)]
 
@@ -337,6 +337,10 @@ def gen_cases(ctx):
                 ops.insert(rng.randint(0, len(ops)), bad_op(rng, top, sub, ops))
             if rng.random() < 0.2 and ops:
                 del ops[rng.randrange(len(ops))]
+        if rng.random() < 0.2:
+            # some of the emitted mappings are immutable ones (a non-dict Mapping: a leaf value for the dynamic recursion)
+            ops = [(q, pg.freeze_some(rng, v, 0.5)) for q, v in ops]
+            stream += '+frozen'
         add(stream, top, sub, ops[:8], fin_ok=rng.random() < 0.85, result=rng.randint(0, 9))
     return cases, streams, n_specs
 
